@@ -25,8 +25,8 @@ def _cellval(ctx, vkind, name):
     raise ValueError(vkind)
 
 
-def assign_nd(ctx, shape, lkinds, kinds, rhs='scalar', via='setitem', inplace=True, cast=False, dkind='f', vkind='f', position=False, order=None):
-    a, ref, dims, labels = build(ctx, shape, lkinds, dkind, order=order)
+def assign_nd(ctx, shape, lkinds, kinds, rhs='scalar', via='setitem', inplace=True, cast=False, dkind='f', vkind='f', position=False, order=None, layout=None):
+    a, ref, dims, labels = build(ctx, shape, lkinds, dkind, order=order, layout=layout)
     attrs = {'units': 'm', 'hist': [1, 2]}
     a.attrs.update(attrs)
     idx = []
@@ -103,9 +103,19 @@ def assign_nd(ctx, shape, lkinds, kinds, rhs='scalar', via='setitem', inplace=Tr
             a.loc[key] = value
             return a
         inplace = True
-    elif via == 'putdict':
-        d_ = dict((d, i) for d, i, k in zip(dims, idx, kinds) if k != 'full')
-        f = lambda: a.put(d_, value, inplace=inplace, indexing='position' if position else None, **kw)
+    elif via in ('putdict', 'putdict-intkeys', 'setitem-dict'):
+        # the index is a {dimension: index} mapping held in one object that is used again for the read-back
+        d_ = dict(((d if via != 'putdict-intkeys' else dims.index(d)), i) for d, i, k in zip(dims, idx, kinds) if k != 'full')
+        if via == 'setitem-dict':
+            def f():
+                if position:
+                    a.ix[d_] = value
+                else:
+                    a[d_] = value
+                return a
+            inplace = True
+        else:
+            f = lambda: a.put(d_, value, inplace=inplace, indexing='position' if position else None, **kw)
     else:
         f = lambda: a.put(key, value, inplace=inplace, indexing='position' if position else None, **kw)
     r = ctx.call(f)
@@ -136,7 +146,10 @@ def assign_nd(ctx, shape, lkinds, kinds, rhs='scalar', via='setitem', inplace=Tr
     elif via.startswith('put'):
         oks.append(r[1] is None)
     # reading back the same index returns what was written
-    rb = ctx.call(lambda: (res.ix[key] if position else res[key]))
+    if via in ('putdict', 'putdict-intkeys', 'setitem-dict'):
+        rb = ctx.call(lambda: res.take(d_, indexing='position' if position else 'label'))
+    else:
+        rb = ctx.call(lambda: (res.ix[key] if position else res[key]))
     if rb[0] != 'ok':
         oks.append(False)
     else:
@@ -151,9 +164,9 @@ def _off(pos, shape):
     return off
 
 
-def assign_mask_nd(ctx, shape, rhs, via, inplace, dkind='f', vkind='f', cast=False, maskform='array'):
+def assign_mask_nd(ctx, shape, rhs, via, inplace, dkind='f', vkind='f', cast=False, maskform='array', layout=None):
     """full N-d boolean mask"""
-    a, ref, dims, labels = build(ctx, shape, ['i'] * len(shape), dkind)
+    a, ref, dims, labels = build(ctx, shape, ['i'] * len(shape), dkind, layout=layout)
     n = len(ref.cells)
     bits = [bool(ctx.bool('m%d' % j)) for j in range(n)]
     cnt = sum(bits)
@@ -372,6 +385,24 @@ def templates():
     for via in ('loc', 'putdict', 'put'):
         for inplace in (True, False):
             add('via-%s-%s' % (via, inplace), 'assign_nd', cost=3, shape=[2, 3], lkinds=['i', 'U'], kinds=['full', 'list2'], rhs='array', via=via, inplace=inplace)
+    # the {dimension: index} mapping is one object, used for the write and again for the read-back
+    for via in ('putdict', 'putdict-intkeys', 'setitem-dict'):
+        for kinds in (('full', 'list2'), ('scalar', 'mask'), ('list2', 'scalar')):
+            for position in (False, True):
+                if position and 'mask' in kinds:
+                    continue
+                add('dict-%s-%s-%s-%s' % (via, kinds[0], kinds[1], 'pos' if position else 'label'), 'assign_nd', cost=3, shape=[2, 3], lkinds=['i', 'U'], kinds=list(kinds),
+                    rhs='scalar', via=via, inplace=(via == 'setitem-dict' or position), position=position)
+    add('dict-3d-putdict', 'assign_nd', cost=4, shape=[2, 2, 2], lkinds=['i', 'U', 'f'], kinds=['present', 'full', 'list2'], rhs='array', via='putdict', inplace=False)
+    # memory layout of the value buffer (column-major, strided view): same cells written, same copy semantics
+    for layout in ('F', 'strided'):
+        for via, inplace in (('setitem', True), ('put', True), ('put', False), ('loc', True)):
+            add('layout-%s-2d-%s-%s' % (layout, via, inplace), 'assign_nd', cost=3, shape=[2, 3], lkinds=['i', 'U'], kinds=['scalar', 'list2'], rhs='array', via=via, inplace=inplace, layout=layout)
+        add('layout-%s-1d' % layout, 'assign_nd', cost=1.5, shape=[3], lkinds=['i'], kinds=['list2'], rhs='scalar', layout=layout)
+        add('layout-%s-pos' % layout, 'assign_nd', cost=2, shape=[3, 2], lkinds=['U', 'i'], kinds=['slice', 'scalar'], rhs='scalar', position=True, layout=layout)
+        add('layout-%s-cast' % layout, 'assign_nd', cost=3, shape=[2, 2], lkinds=['i', 'i'], kinds=['scalar', 'full'], rhs='scalar', via='put', inplace=True, cast=True, dkind='i', vkind='f', layout=layout)
+        for via, inplace in (('setitem', True), ('put', False)):
+            add('layout-%s-mask-%s' % (layout, via), 'assign_mask_nd', cost=2, shape=[2, 2], rhs='scalar', via=via, inplace=inplace, layout=layout)
     # positional
     for kinds in (('scalar',), ('list2',), ('mask',), ('slice',)):
         add('pos-1d-%s' % kinds[0], 'assign_nd', cost=2, shape=[3], lkinds=['U'], kinds=list(kinds), rhs='scalar', position=True)
